@@ -146,7 +146,7 @@ def facts_true(test, facts, cc):
         out = sets[0]
         for s in sets[1:]:
             out = out & s
-        return out
+        return out | {('T', U(test))}
     if isinstance(test, ast.Compare):
         items = [test.left] + list(test.comparators)
         out = set()
@@ -177,7 +177,8 @@ def facts_false(test, facts, cc):
         out = sets[0]
         for s in sets[1:]:
             out = out & s
-        return out
+        # the falsified conjunction itself is kept as a compound atom (disjunctive knowledge)
+        return out | {('F', U(test))}
     if isinstance(test, ast.Compare):
         items = [test.left] + list(test.comparators)
         pairs = list(zip(items, test.ops, items[1:]))
